@@ -265,6 +265,32 @@ Definition spec_ok (ondup onmiss : opt) (dels : list key) (wrs : list witem) (ts
                        | Some c => opt_ignore ondup && ocond_eqb c (obs_cond (w_cond w))
                        end) wrs.
 
+(* the same decision with the error class, in the order both backends examine the items *)
+Fixpoint spec_del_err (ignore : bool) (dels : list key) (ts : list otuple) : option werr :=
+  match dels with
+  | [] => None
+  | d :: ds => match lookup d ts with
+               | None => if ignore then spec_del_err ignore ds ts else Some EInvalidInput
+               | Some _ => spec_del_err ignore ds ts
+               end
+  end.
+Fixpoint spec_wr_err (ignore : bool) (wrs : list witem) (ts : list otuple) : option werr :=
+  match wrs with
+  | [] => None
+  | w :: ws => match lookup (w_key w) ts with
+               | None => spec_wr_err ignore ws ts
+               | Some c => if ignore then
+                             if ocond_eqb c (obs_cond (w_cond w)) then spec_wr_err ignore ws ts
+                             else Some ECondConflict
+                           else Some EInvalidInput
+               end
+  end.
+Definition spec_err (ondup onmiss : opt) (dels : list key) (wrs : list witem) (ts : list otuple) : option werr :=
+  match spec_del_err (opt_ignore onmiss) dels ts with
+  | Some e => Some e
+  | None => spec_wr_err (opt_ignore ondup) wrs ts
+  end.
+
 Definition spec_deleted (dels : list key) (ts : list otuple) : list otuple :=
   filter (fun t => in_keys (fst t) dels) ts.
 Definition spec_kept (dels : list key) (ts : list otuple) : list otuple :=
@@ -305,6 +331,9 @@ Definition wf_user (u : bytes) : bool :=
 
 Definition wf_key (k : key) : bool := wf_obj (k_obj k) && wf_rel (k_rel k) && wf_user (k_user k).
 
+(* the rendering of a real context never is the five characters "<nil>" *)
+Definition wf_ctx (c : ctx) : bool := match c with CNil => true | CStruct t => negb (beqb t nil_text) end.
+
 Fixpoint nodup_keys (ks : list key) : bool :=
   match ks with
   | [] => true
@@ -315,10 +344,11 @@ Definition req_keys (dels : list key) (wrs : list witem) : list key := dels ++ m
 
 (* the contract of storage Write as the command layer uses it *)
 Definition wf_request (dels : list key) (wrs : list witem) : bool :=
-  forallb wf_key (req_keys dels wrs) && nodup_keys (req_keys dels wrs).
+  forallb wf_key (req_keys dels wrs) && nodup_keys (req_keys dels wrs)
+  && forallb (fun w => wf_ctx (cond_ctx (w_cond w))) wrs.
 
 Definition wf_rec (r : mrec) : bool :=
-  wf_key (rec_key r) && negb (mem c_colon (m_otype r)).
+  wf_key (rec_key r) && negb (mem c_colon (m_otype r)) && wf_ctx (m_cctx r).
 
 Definition wf_store (st : mstate) : bool :=
   forallb wf_rec (tuples st) && nodup_keys (map rec_key (tuples st)).
@@ -340,3 +370,39 @@ Definition trig_mem_ctx (ondup : opt) (wrs : list witem) (st : mstate) : bool :=
    stored record whose key is a different string *)
 Definition trig_partial_match (ks : list key) (st : mstate) : bool :=
   existsb (fun k => existsb (fun r => tk_match r k && negb (key_eqb (rec_key r) k)) (tuples st)) ks.
+
+(* ---------------------------------------------------------------------------------------- *)
+(* Histories and replay of the changelog (C15)                                              *)
+
+Record req := mkReq {
+  q_cmd : bool;                 (* through the Write command, or directly on the datastore *)
+  q_ondup : opt; q_onmiss : opt;
+  q_dels : list key; q_wrs : list witem;
+  q_now : N }.
+
+Definition step (st : mstate) (q : req) : mstate :=
+  snd (if q_cmd q then mem_cmd_write (q_ondup q) (q_onmiss q) (q_dels q) (q_wrs q) (q_now q) st
+       else mem_write (q_ondup q) (q_onmiss q) (q_dels q) (q_wrs q) (q_now q) st).
+
+Definition run_history (h : list req) : mstate := fold_left step h empty_state.
+
+(* a consumer of ReadChanges: a write puts the tuple (replacing one with the same key), a
+   delete removes it *)
+Definition drop_key (k : key) (ts : list otuple) : list otuple :=
+  filter (fun t => negb (key_eqb (fst t) k)) ts.
+Definition apply_change (ts : list otuple) (c : cop * key * ocond) : list otuple :=
+  match c with
+  | (OpWrite, k, cd) => drop_key k ts ++ [(k, cd)]
+  | (OpDelete, k, _) => drop_key k ts
+  end.
+Definition replay (l : olog) : list otuple := fold_left apply_change l [].
+
+(* a written key that the backend's own match recognises again (every well-formed key does) *)
+Definition self_match (w : witem) : bool := tk_match (new_rec w) (w_key w).
+Definition req_self_match (q : req) : bool := forallb self_match (q_wrs q).
+
+Fixpoint ts_sorted (last : N) (l : list change) : bool :=
+  match l with
+  | [] => true
+  | c :: l' => (last <=? c_ts c) && ts_sorted (c_ts c) l'
+  end.
